@@ -46,7 +46,7 @@ CHECKS = {
    engine="qsim + qmiri"),
  "C13": dict(
    category="exploration",
-   text="Seeded simulation of the qgraph round trip: the decider owns the generated diagram and, through the hash-order seam, the RandomState key of every map created in the encoder and in each of several independent decodes, so JSON member order, decoded vertex numbering and edge insertion order are recorded, replayable decisions instead of per-process accidents. Decoded graphs are compared with the original by an input/output-anchored isomorphism oracle (types, phases, edge types, coordinates), exact scalar comparison in Z[omega]/2^k for sqrt2^p e^{ik pi/4} and 1e-9 relative otherwise, tensor equality where evaluable, and pairwise between hash orders. The file form (write_graph/read_graph) runs on a real filesystem under injected ENOSPC, a torn write at a decider-chosen offset (RLIMIT_FSIZE, child process), missing directory and directory-as-target, and with write_graph resp. read_graph in a child process behind a system-call seam (LD_PRELOAD shim: short writes / short reads, EINTR, errno failures at decider-chosen open/read/write calls); only a reported success with a missing, undecodable or different file is a violation. Sub-batch file_multi: histories of several write_graph calls into one directory under names that share stems and extensions, after which every file must hold the diagram written to it last.",
+   text="Seeded simulation of the qgraph round trip: the decider owns the generated diagram and, through the hash-order seam, the RandomState key of every map created in the encoder and in each of several independent decodes, so JSON member order, decoded vertex numbering and edge insertion order are recorded, replayable decisions instead of per-process accidents. Decoded graphs are compared with the original by an input/output-anchored isomorphism oracle (types, phases, edge types, coordinates), exact scalar comparison in Z[omega]/2^k for sqrt2^p e^{ik pi/4} and 1e-9 relative otherwise, tensor equality where evaluable, and pairwise between hash orders. The file form (write_graph/read_graph) runs on a real filesystem under injected ENOSPC, a torn write at a decider-chosen offset (RLIMIT_FSIZE, child process), missing directory and directory-as-target, and with write_graph resp. read_graph in a child process behind a system-call seam (LD_PRELOAD shim: short writes / short reads, EINTR, errno failures at decider-chosen open/read/write calls); only a reported success with a missing, undecodable or different file is a violation. Sub-batch file_multi: histories of several write_graph calls into one directory under names that share stems and extensions, after which every file must hold the diagram written to it last; sub-batch file_concurrent: concurrent writer threads in a child process under the seam's thread scheduler (one runs at a time, decider-chosen switches at every file operation).",
    design_ref="DESIGN.md §2.5, §4 C13",
    note="Trusted: the isomorphism checker (self-tested on permuted copies and on edge-type mutations at every start), the ZX evaluator, tmpfs//dev/full/RLIMIT_FSIZE semantics. Coordinates are compared to 1e-12 relative (serde_json's default float parser is not correctly rounded in the last bit); for phase denominators above 256 - outside the exactness clause - only agreement to 1/256 is demanded; a scalar whose dyadic coefficients equal the original is accepted even if flagged approximate. Bounds: <=10 spiders (300 in the large-file runs), <=12 boundaries per side, scalar magnitudes 2^-1000..2^1000.",
    technique="deterministic simulation: seeded decider behind the hash-order seam + fault injection on the real filesystem, anchored-isomorphism / exact-scalar / tensor oracles, shrinking + replay files"),
